@@ -393,15 +393,12 @@ func ruleTODO(c *Ctx) []Obligation {
 	// 2. translate drains generator.todo before its success return
 	tfn := c.lookupFunc(pkgASM, "translate")
 	tfd := c.funcDecl(tfn)
-	o2 := Obligation{Key: "asm.translate drains the work list before returning the module", Verdict: VIOL, Detail: "no top-level loop over generator.todo before the success return"}
+	o2 := Obligation{Key: "asm.translate drains the work list before returning the module", Verdict: VIOL, Detail: "no loop over generator.todo at the top level of translate or of a phase function it runs"}
 	var fixer *types.Func
 	if tfd != nil {
 		o2.Pos = c.pos(tfd.Pos())
-		for _, st := range tfd.Body.List {
-			rs, ok := st.(*ast.RangeStmt)
-			if !ok || mapFieldName(info, rs.X) != "generator.todo" {
-				continue
-			}
+		_, drainPos, drainFd, rs := c.translatePhases()
+		if rs != nil {
 			// the body calls a function with the element and propagates its error
 			ast.Inspect(rs.Body, func(nd ast.Node) bool {
 				if call, ok := nd.(*ast.CallExpr); ok && len(call.Args) == 1 && rs.Value != nil && exprString(call.Args[0]) == exprString(rs.Value) {
@@ -412,8 +409,12 @@ func ruleTODO(c *Ctx) []Obligation {
 				return true
 			})
 			if fixer != nil {
-				o2.Verdict, o2.Pos = OK, c.pos(rs.Pos())
-				o2.Detail = "for every queued constant: " + fixer.Name() + "(c), error propagated (ERR), before `return gen.m, nil`"
+				o2.Verdict, o2.Pos = OK, c.pos(drainPos)
+				where := "in translate"
+				if drainFd != tfd {
+					where = "in the phase function " + drainFd.Name.Name
+				}
+				o2.Detail = "for every queued constant: " + fixer.Name() + "(c), error propagated (ERR), " + where + ", before `return gen.m, nil`"
 			}
 		}
 	} else {
@@ -657,64 +658,44 @@ func rulePHASE(c *Ctx) []Obligation {
 	var steps []*step
 	sfn := c.ssaFunc(tfn)
 	cg := c.CallGraph()
-	for _, st := range tfd.Body.List {
-		var calls []*ast.CallExpr
-		ast.Inspect(st, func(nd ast.Node) bool {
-			if call, ok := nd.(*ast.CallExpr); ok {
-				if f := calleeOf(info, call); f != nil && f.Pkg() != nil && f.Pkg().Path() == pkgASM {
-					calls = append(calls, call)
-				}
+	phaseRefs, drainAt, _, _ := c.translatePhases()
+	for _, ref := range phaseRefs {
+		f := ref.fn
+		sf := c.ssaFunc(f)
+		if sf == nil {
+			continue
+		}
+		s := &step{name: f.Name(), pos: ref.pos, fills: map[string]bool{}, looks: map[string]bool{}}
+		order, _ := e.reach([]*ssa.Function{sf})
+		for _, g := range order {
+			for m := range lookups[g] {
+				s.looks[m] = true
 			}
-			return true
-		})
-		for _, call := range calls {
-			f := calleeOf(info, call)
-			sf := c.ssaFunc(f)
-			if sf == nil {
-				continue
-			}
-			s := &step{name: f.Name(), pos: call.Pos(), fills: map[string]bool{}, looks: map[string]bool{}}
-			order, _ := e.reach([]*ssa.Function{sf})
-			for _, g := range order {
-				for m := range lookups[g] {
-					s.looks[m] = true
-				}
-				// a fill: MapUpdate on newIndex.* inside a range over the matching oldIndex map (all definitions)
-				for _, ef := range e.of(g) {
-					if ef.Kind == "map" && strings.HasPrefix(ef.Target, "asm.newIndex.") {
-						if c.insideRangeOverIndex(g, ef) {
-							s.fills[ef.Target] = true
-						}
+			// a fill: MapUpdate on newIndex.* inside a range over the matching oldIndex map (all definitions)
+			for _, ef := range e.of(g) {
+				if ef.Kind == "map" && strings.HasPrefix(ef.Target, "asm.newIndex.") {
+					if c.insideRangeOverIndex(g, ef) {
+						s.fills[ef.Target] = true
 					}
 				}
 			}
-			steps = append(steps, s)
 		}
+		steps = append(steps, s)
 	}
 	_ = sfn
 	_ = cg
 	// no step after the work-list drain may queue new placeholders
-	var drainPos token.Pos
-	for _, st := range tfd.Body.List {
-		if rs, ok := st.(*ast.RangeStmt); ok && mapFieldName(info, rs.X) == "generator.todo" {
-			drainPos = rs.Pos()
-		}
-	}
+	drainPos := drainAt
 	if drainPos.IsValid() {
 		o := Obligation{Key: "no placeholder is queued after the work-list drain", Pos: c.pos(drainPos), Verdict: OK, Detail: "every step that can append to generator.todo precedes the drain"}
-		for _, st := range tfd.Body.List {
-			if st.Pos() <= drainPos {
+		for _, ref := range phaseRefs {
+			if ref.pos <= drainPos {
 				continue
 			}
-			ast.Inspect(st, func(nd ast.Node) bool {
-				call, ok := nd.(*ast.CallExpr)
-				if !ok {
-					return true
-				}
-				f := calleeOf(info, call)
-				if f == nil || f.Pkg() == nil || f.Pkg().Path() != pkgASM {
-					return true
-				}
+			func() bool {
+				f := ref.fn
+				call := ref
+				_ = call
 				sf := c.ssaFunc(f)
 				if sf == nil {
 					return true
@@ -723,12 +704,12 @@ func rulePHASE(c *Ctx) []Obligation {
 				for _, r := range effs {
 					if r.Kind == "field" && r.Target == "asm.generator.todo" && o.Verdict == OK {
 						o.Verdict = VIOL
-						o.Pos = c.pos(call.Pos())
+						o.Pos = c.pos(call.pos)
 						o.Detail = fmt.Sprintf("%s runs after the loop that replaces blockaddress placeholders but can still queue one (%s via %s): that placeholder is never replaced and survives in the returned module, and an undefined label in it is never diagnosed", f.Name(), c.pos(r.Pos), r.Path)
 					}
 				}
 				return true
-			})
+			}()
 		}
 		obs = append(obs, o)
 	}
@@ -1113,4 +1094,63 @@ func ruleIDXONCE(c *Ctx) []Obligation {
 		}
 	}
 	return obs
+}
+
+// phaseRef is a reference, inside asm.translate, to a function of package asm: a call, or a
+// method value / function value placed in a table of phases that is run in order.
+type phaseRef struct {
+	fn  *types.Func
+	pos token.Pos
+}
+
+// translatePhases lists the functions of package asm that translate refers to, in source
+// order (which is execution order for straight-line code and for a table of phases iterated
+// in order). drain is the position at which generator.todo is drained: a range over it in
+// translate itself, or the reference to the function whose body contains that range.
+func (c *Ctx) translatePhases() (refs []phaseRef, drain token.Pos, drainFn *ast.FuncDecl, drainLoop *ast.RangeStmt) {
+	tfn := c.lookupFunc(pkgASM, "translate")
+	tfd := c.funcDecl(tfn)
+	if tfd == nil {
+		return nil, token.NoPos, nil, nil
+	}
+	info := c.pkg(pkgASM).TypesInfo
+	pm := buildParents(tfd.Body)
+	ast.Inspect(tfd.Body, func(n ast.Node) bool {
+		switch n := n.(type) {
+		case *ast.CallExpr:
+			if f := calleeOf(info, n); f != nil && f.Pkg() != nil && f.Pkg().Path() == pkgASM {
+				refs = append(refs, phaseRef{f, n.Pos()})
+			}
+		case *ast.SelectorExpr:
+			if sel, ok := info.Selections[n]; ok && sel.Kind() == types.MethodVal {
+				if call, isCall := pm[n].(*ast.CallExpr); isCall && call.Fun == ast.Expr(n) {
+					return true // counted as a call
+				}
+				if f, ok := sel.Obj().(*types.Func); ok && f.Pkg() != nil && f.Pkg().Path() == pkgASM {
+					refs = append(refs, phaseRef{f, n.Pos()})
+				}
+			}
+		}
+		return true
+	})
+	sort.Slice(refs, func(i, j int) bool { return refs[i].pos < refs[j].pos })
+	hasDrain := func(fd *ast.FuncDecl) *ast.RangeStmt {
+		for _, st := range fd.Body.List {
+			if rs, ok := st.(*ast.RangeStmt); ok && mapFieldName(info, rs.X) == "generator.todo" {
+				return rs
+			}
+		}
+		return nil
+	}
+	if rs := hasDrain(tfd); rs != nil {
+		return refs, rs.Pos(), tfd, rs
+	}
+	for _, r := range refs {
+		if fd := c.funcDecl(r.fn); fd != nil && fd.Body != nil {
+			if rs := hasDrain(fd); rs != nil {
+				return refs, r.pos, fd, rs
+			}
+		}
+	}
+	return refs, token.NoPos, nil, nil
 }
